@@ -304,6 +304,19 @@ class CellMeasure(
         >>> # Logs: CellMeasure: Different 'units' property values: 'm2', 'km2'
 
         """
+        # ------------------------------------------------------------
+        # Convert "other" to the type of "self" when types are
+        # ignored, so that the components tested below are those of
+        # the converted object
+        # ------------------------------------------------------------
+        pp = super()._equals_preprocess(
+            other, verbose=verbose, ignore_type=ignore_type
+        )
+        if pp is True or pp is False:
+            return pp
+
+        other = pp
+
         if not super().equals(
             other,
             rtol=rtol,
